@@ -74,6 +74,8 @@ structure Case where
   nodes : Option Nat := none
   stop : Nat := 0
   cache : String := "fresh"
+  tag : String := ""
+  wit : String := ""
   raw : String := ""
 
 structure SStats where
@@ -91,6 +93,10 @@ structure SStats where
   repeats : Nat := 0
   fallbackBest : Nat := 0
   mateScores : Nat := 0
+  mateInOne : Nat := 0
+  mateInTwo : Nat := 0
+  avoidable : Nat := 0
+  longerMateKept : Nat := 0
 
 structure SSt where
   lineNo : Nat := 0
@@ -132,7 +138,8 @@ def parseCase (rest : String) : Case :=
     match t.find? (fun x => x.startsWith (name ++ "=")) with
     | some x => (x.drop (name.length + 1)).toString | none => ""
   { fen := fen, moves := if moves.isEmpty then [] else moves.splitOn " ",
-    depth := (t.headD "1").toNat!, nodes := (kv "nodes").toNat?, stop := (kv "stop").toNat!, cache := kv "cache", raw := rest }
+    depth := (t.headD "1").toNat!, nodes := (kv "nodes").toNat?, stop := (kv "stop").toNat!, cache := kv "cache",
+    tag := kv "tag", wit := kv "wit", raw := rest }
 
 /-- drop `time T` and `nps X`, normalise blanks -/
 def canonInfo (line : String) : String :=
@@ -215,6 +222,19 @@ def validInfoSyntax (line : String) : Bool :=
      | _ => false)
   | _ => false
 
+/-- rules-spec mate oracle -/
+def specMatesInOne (p : Rules.Pos) : List Rules.Move :=
+  (Rules.legalMoves p).filter fun m => let q := Rules.apply p m; (Rules.legalMoves q).isEmpty && Rules.inCheck q q.turn
+
+/-- after `m` every reply allows a mate in one (and there is a reply, or `m` itself mates) -/
+def specKeepsMate (p : Rules.Pos) (m : Rules.Move) : Bool :=
+  let q := Rules.apply p m
+  let rs := Rules.legalMoves q
+  if rs.isEmpty then Rules.inCheck q q.turn
+  else rs.all fun r => !(specMatesInOne (Rules.apply q r)).isEmpty
+
+def specAllowsMateInOne (p : Rules.Pos) (m : Rules.Move) : Bool := !(specMatesInOne (Rules.apply p m)).isEmpty
+
 def finishCase (s : SSt) (rline : String) : SSt := Id.run do
   let some c := s.cur | return s
   let mut s := s
@@ -290,6 +310,33 @@ def finishCase (s : SSt) (rline : String) : SSt := Id.run do
       s := { s with specBudget := s.specBudget - 1, stats := { s.stats with specNegamaxChecks := s.stats.specNegamaxChecks + 1 } }
       if sref != implScore then
         s := s.report "spec" "C11" "root-score-vs-spec-negamax" s!"impl={implScore} spec-negamax={sref}"
+  -- C12: after a completed iteration of depth >= 3 the chosen move must respect short forced mates
+  if c.tag != "" && unlimited && c.depth ≥ 3 && c.moves.isEmpty then
+    let bm := ((s.bests.getD 0 "").splitOn " ").getD 1 ""
+    let legal := Rules.legalMoves sn.pos
+    match legal.find? (fun x => specMoveName x == bm), legal.find? (fun x => specMoveName x == c.wit) with
+    | some chosen, some wit =>
+      if c.tag == "m1" then
+        s := { s with stats := { s.stats with mateInOne := s.stats.mateInOne + 1 } }
+        if !(specMatesInOne sn.pos).contains wit then s := s.report "model" "C12" "mined-witness-not-a-mate-in-one" s!"wit={c.wit}"
+        else if !(specMatesInOne sn.pos).contains chosen then
+          s := s.report "spec" "C12" "mate-in-one-not-played" s!"chosen={bm} mates=[{" ".intercalate ((specMatesInOne sn.pos).map specMoveName)}]"
+      else if c.tag == "m2" then
+        s := { s with stats := { s.stats with mateInTwo := s.stats.mateInTwo + 1 } }
+        if !specKeepsMate sn.pos wit then s := s.report "model" "C12" "mined-witness-not-a-forced-mate" s!"wit={c.wit}"
+        else if !specKeepsMate sn.pos chosen then
+          -- not the shortest mate: does a forced mate remain at all (within three more moves)?
+          let keeps := match (legalMovesOf chessGame board).find? (fun m => m.notation == bm) with
+            | some m => lostWithin chessGame 2 (board.makeMove m)
+            | none => false
+          if keeps then s := { s with stats := { s.stats with longerMateKept := s.stats.longerMateKept + 1 } }
+          else s := s.report "spec" "C12" "forced-mate-let-go" s!"chosen={bm} witness={c.wit}"
+      else if c.tag == "av" then
+        s := { s with stats := { s.stats with avoidable := s.stats.avoidable + 1 } }
+        if specAllowsMateInOne sn.pos wit then s := s.report "model" "C12" "mined-witness-not-safe" s!"wit={c.wit}"
+        else if specAllowsMateInOne sn.pos chosen then
+          s := s.report "spec" "C12" "allowed-an-avoidable-mate-in-one" s!"chosen={bm} safe={c.wit}"
+    | _, _ => s := s.report "model" "C12" "move-not-found-in-spec" s!"chosen={bm} wit={c.wit}"
   -- repeated runs of the same case from a fresh cache must be identical
   if c.raw == s.prevRaw && c.cache != "keep" then
     s := { s with stats := { s.stats with repeats := s.stats.repeats + 1 } }
@@ -346,7 +393,7 @@ def runSearch (specBudget : Nat) : IO UInt32 := do
   for r in s.reports do IO.println r
   let st := s.stats
   let samples := ",".intercalate (s.samples.toList.map fun x => "\"" ++ (x.replace "\"" "'") ++ "\"")
-  IO.println ("SUMMARY {" ++ s!"\"lines\":{s.lineNo},\"cases\":{st.cases},\"distinct_cases\":{s.distinct.size},\"info_lines\":{st.infoLines},\"cache_writes\":{st.writes},\"nodes_total\":{st.nodesTotal},\"interrupted\":{st.aborted},\"completed\":{st.completed},\"cache_off\":{st.cacheOff},\"cache_kept\":{st.kept},\"with_history\":{st.withHistory},\"negamax_checks\":{st.negamaxChecks},\"spec_negamax_checks\":{st.specNegamaxChecks},\"repeated_runs\":{st.repeats},\"fallback_bestmove\":{st.fallbackBest},\"mate_scores\":{st.mateScores},\"model_mismatches\":{s.nModel},\"spec_mismatches\":{s.nSpec},\"samples\":[{samples}]" ++ "}")
+  IO.println ("SUMMARY {" ++ s!"\"lines\":{s.lineNo},\"cases\":{st.cases},\"distinct_cases\":{s.distinct.size},\"info_lines\":{st.infoLines},\"cache_writes\":{st.writes},\"nodes_total\":{st.nodesTotal},\"interrupted\":{st.aborted},\"completed\":{st.completed},\"cache_off\":{st.cacheOff},\"cache_kept\":{st.kept},\"with_history\":{st.withHistory},\"negamax_checks\":{st.negamaxChecks},\"spec_negamax_checks\":{st.specNegamaxChecks},\"repeated_runs\":{st.repeats},\"fallback_bestmove\":{st.fallbackBest},\"mate_scores\":{st.mateScores},\"mate_in_one_cases\":{st.mateInOne},\"mate_in_two_cases\":{st.mateInTwo},\"avoidable_threat_cases\":{st.avoidable},\"longer_mate_kept\":{st.longerMateKept},\"model_mismatches\":{s.nModel},\"spec_mismatches\":{s.nSpec},\"samples\":[{samples}]" ++ "}")
   return (if s.nModel + s.nSpec == 0 then 0 else 1)
 
 end RCE.Driver
